@@ -280,6 +280,11 @@ class Interp:
             if isinstance(e.op, ast.Mod) and isinstance(a, StrV):
                 return StrV(a.kind)
             return TOP
+        if isinstance(e, ast.UnaryOp) and isinstance(e.op, ast.Not):
+            t = self.eval_test(e.operand, st)
+            return BoolV(None if t is None else not t)
+        if isinstance(e, ast.Compare):
+            return BoolV(self._cmp(e, st))
         if isinstance(e, ast.IfExp):
             t = self.eval_test(e.test, st)
             if t is True:
@@ -370,6 +375,10 @@ class Interp:
             v = self.eval(c.args[0], st)
             if isinstance(v, StrV):
                 return IntV(0, v.maxb)
+            if isinstance(v, _Elems):
+                return IntV(v.minlen, None)
+            if isinstance(v, SetV):
+                return IntV(len(v.items), len(v.items))
             return IntV(0, None)
         if d in ("min", "max") and len(c.args) == 2:
             a, b = self.eval(c.args[0], st), self.eval(c.args[1], st)
@@ -401,7 +410,7 @@ class Interp:
         if mc is not None:
             recv_e, name = mc
             recv = self.eval(recv_e, st)
-            if recv is TOP and name in ("replace", "encode", "translate", "splitlines", "strip", "lstrip", "rstrip"):
+            if recv is TOP and name in ("replace", "encode", "translate", "splitlines", "strip", "lstrip", "rstrip", "split", "rsplit", "partition"):
                 # duck-typed text: these calls only make sense on str/bytes
                 recv = StrV("bytes" if name == "decode" else "str")
             if isinstance(recv, StrV):
@@ -456,7 +465,8 @@ class Interp:
                     no_cr = True
                 if sx == "\n":
                     no_lf = True
-            return _Elems(StrV(recv.kind, no_cr, no_lf, recv.maxb))
+            ml = 3 if name in ("partition", "rpartition") else (1 if sep is not None and not isinstance(sep, NoneV) else 0)
+            return _Elems(StrV(recv.kind, no_cr, no_lf, recv.maxb), ml)
         if name == "translate" and c.args:
             t = c.args[0]
             dropped = set()
@@ -770,6 +780,10 @@ class Interp:
 
     def _assign(self, st, t, v) -> None:
         if isinstance(t, (ast.Tuple, ast.List)):
+            if isinstance(v, TupleV) and len(v.elts) == len(t.elts):
+                for e, ev in zip(t.elts, v.elts):
+                    self._assign(st, e, ev)
+                return
             for e in t.elts:
                 self._assign(st, e, TOP)
             return
@@ -834,6 +848,7 @@ class _Elems:
     """A sequence whose elements all have abstract value ``elem``."""
 
     elem: object
+    minlen: int = 0
 
 
 def _char_filter(cond: ast.AST, var: str) -> tuple[bool, bool]:
